@@ -517,6 +517,29 @@ def boundary_table(prog: Program, cy: CyProgram) -> list[Site]:
                         callee, args, via = r2, node.args[1:], "partial"
             if callee is None:
                 continue
+            if any(isinstance(a, ast.Starred) for a in args) and via == "call":
+                # f(*self._inputs(...), x): the tuple a private helper returns,
+                # element by element, in the caller's terms
+                from .idioms import expand_starred_args
+
+                def _resolve(hname, _f=f):
+                    h = prog.lookup(_f.cls, hname) if _f.cls is not None else None
+                    if h is None:
+                        r_ = prog.resolve_name(_f.module, hname)
+                        h = r_[1] if r_ and r_[0] == "func" else None
+                    return h.node if h is not None and \
+                        isinstance(h.node, ast.FunctionDef) else None
+
+                def _not_none(nm, _f=f):
+                    r_ = prog.resolve_name(_f.module, nm)
+                    return nm.isupper() and r_ is not None and r_[0] == "value"
+                exp = expand_starred_args(node, _resolve, _not_none)
+                if exp is None:
+                    continue            # not decidable statically: no verdict
+                node = ast.copy_location(
+                    ast.Call(func=node.func, args=exp, keywords=node.keywords), node)
+                ast.fix_missing_locations(node)
+                args = node.args
             k = cy.func(callee[1], callee[2])
             if k is None:
                 raise AnalysisError(
